@@ -587,8 +587,12 @@ End Frag.
 
 (* the two proved fragments: [s1_program] (any never inside a composite: no run goes wrong at all) and
    the wider [s2_program] (no run goes wrong except by exhausting the host stack on a cyclic value) *)
-Definition s1_program (P : program) : bool := s1_stmts true (p_stmts P) && forallb (s1_func true) (p_funcs P).
-Definition s2_program (P : program) : bool := s1_stmts false (p_stmts P) && forallb (s1_func false) (p_funcs P).
+Definition s1_program (P : program) : bool :=
+  s1_stmts true (p_stmts P) && forallb (s1_func true) (p_funcs P)
+  && forallb (fun h => s1_stmts true (h_body h)) (p_handlers P).
+Definition s2_program (P : program) : bool :=
+  s1_stmts false (p_stmts P) && forallb (s1_func false) (p_funcs P)
+  && forallb (fun h => s1_stmts false (h_body h)) (p_handlers P).
 
 (* ---------- diagnosis: a short reason symbol for a rejected program ---------- *)
 Definition expr_kind (e : expr) : string :=
